@@ -762,9 +762,7 @@ impl XmlAttribute {
         self.element()
             .as_ref()?
             .borrow()
-            .declaration_att_list()?
-            .borrow()
-            .atts
+            .declaration_att_defs()
             .iter()
             .find(|v| equal_qname(v.qname(), self.qname()))
             .cloned()
@@ -2225,18 +2223,16 @@ impl Element for XmlElement {
     fn attributes(&self) -> UnorderedSet<XmlNode<XmlAttribute>> {
         let mut items = self.attributes_specified();
 
-        if let Some(attrs) = self.declaration_att_list() {
-            for attr in attrs.borrow().atts.as_slice() {
-                if attr.value != XmlDeclarationAttDefault::Implied
-                    && !items
-                        .iter()
-                        .any(|v| equal_qname(v.borrow().qname(), attr.qname()))
-                {
-                    let item = XmlAttribute::new_from_declaration(attr, self.context());
-                    // The owner element determines the declared type used for normalization.
-                    item.borrow_mut().set_parent_id(Some(self.id()));
-                    items.push(item);
-                }
+        for attr in self.declaration_att_defs().as_slice() {
+            if attr.value != XmlDeclarationAttDefault::Implied
+                && !items
+                    .iter()
+                    .any(|v| equal_qname(v.borrow().qname(), attr.qname()))
+            {
+                let item = XmlAttribute::new_from_declaration(attr, self.context());
+                // The owner element determines the declared type used for normalization.
+                item.borrow_mut().set_parent_id(Some(self.id()));
+                items.push(item);
             }
         }
 
@@ -2474,26 +2470,20 @@ impl XmlElement {
     }
 
     fn attributes_id(&self) -> Vec<XmlNode<XmlAttribute>> {
-        if let Some(attlist) = self.declaration_att_list() {
-            let ids = attlist
-                .borrow()
-                .atts
-                .iter()
-                .filter(|v| v.ty == XmlDeclarationAttType::Id)
-                .cloned()
-                .collect::<Vec<XmlDeclarationAttDef>>();
-            self.attributes
-                .iter()
-                .filter_map(|v| v.as_attribute())
-                .filter(|v| !v.borrow().namespace())
-                .filter(|v| {
-                    ids.iter()
-                        .any(|i| equal_qname(v.borrow().qname(), i.qname()))
-                })
-                .collect()
-        } else {
-            vec![]
-        }
+        let ids = self
+            .declaration_att_defs()
+            .into_iter()
+            .filter(|v| v.ty == XmlDeclarationAttType::Id)
+            .collect::<Vec<XmlDeclarationAttDef>>();
+        self.attributes
+            .iter()
+            .filter_map(|v| v.as_attribute())
+            .filter(|v| !v.borrow().namespace())
+            .filter(|v| {
+                ids.iter()
+                    .any(|i| equal_qname(v.borrow().qname(), i.qname()))
+            })
+            .collect()
     }
 
     fn attributes_specified(&self) -> Vec<XmlNode<XmlAttribute>> {
@@ -2504,16 +2494,24 @@ impl XmlElement {
             .collect()
     }
 
-    fn declaration_att_list(&self) -> Option<XmlNode<XmlDeclarationAttList>> {
-        self.context
-            .document()
-            .borrow()
-            .document_declaration()?
-            .borrow()
-            .attributes()
-            .iter()
-            .find(|v| equal_qname(v.borrow().qname(), self.qname()))
-            .cloned()
+    /// Attribute definitions of this element type. All attribute-list declarations for the
+    /// element are merged; the first definition of an attribute name is binding.
+    fn declaration_att_defs(&self) -> Vec<XmlDeclarationAttDef> {
+        let mut defs: Vec<XmlDeclarationAttDef> = vec![];
+
+        if let Some(declaration) = self.context.document().borrow().document_declaration() {
+            for list in declaration.borrow().attributes().iter() {
+                if equal_qname(list.borrow().qname(), self.qname()) {
+                    for def in list.borrow().atts.as_slice() {
+                        if !defs.iter().any(|v| equal_qname(v.qname(), def.qname())) {
+                            defs.push(def.clone());
+                        }
+                    }
+                }
+            }
+        }
+
+        defs
     }
 
     fn find_nameapce_uri(&self, prefix: &str) -> error::Result<Option<NamespaceUri>> {
